@@ -311,7 +311,7 @@ func InjectFault(t *rapid.T, doc0 *Doc) (*Doc, Fault, bool) {
 							add("undefined-type-rule", func() []int { p.V.Ref = "@undefinedType"; return []int{d.ID} })
 						case "enumstr":
 							add("undefined-enum", func() []int { p.V.Enum = "@undefinedEnum"; return []int{d.ID} })
-						case "obj":
+						case "obj", "arrobj":
 							inObj(p.V.Obj)
 						}
 					}
